@@ -616,8 +616,24 @@ func (r *run) c15Body(g *gen.G, v knxnet.ServicePackable) {
 			long[i] = 0xA5
 		}
 		if d := guarded(func() decOut { knxnet.Pack(long, v); return decOut{class: "ok"} }); d.class != "ok" {
+			r.emit("encw f:165:"+fmt.Sprint(len(long))+" "+toks, d.class)
 			r.violation("frame-pack-longer-buffer-"+d.class, op2, d.msg)
 		} else {
+			// the whole buffer, old content included, against the buffer-writing model
+			r.emit("encw f:165:"+fmt.Sprint(len(long))+" "+toks, "ok "+ktext.Hex(long))
+			// and a pseudo-random old content (same generator in the model driver)
+			spec := tailSpec{kind: 'l', arg: uint32(g.R.Int31()), n: int(fsize) + g.R.Intn(9)}
+			rb := spec.bytes()
+			opw := "encw " + spec.String() + " " + toks
+			if d := guarded(func() decOut { knxnet.Pack(rb, v); return decOut{class: "ok"} }); d.class != "ok" {
+				r.emit(opw, d.class)
+				r.violation("frame-pack-random-prefill-"+d.class, opw, d.msg)
+			} else {
+				r.emit(opw, "ok "+ktext.Hex(rb))
+				if !bytes.Equal(rb[:fsize], fw) {
+					r.violation("frame-depends-on-old-content", opw, "frame "+ktext.Hex(rb[:fsize])+" vs "+ktext.Hex(fw))
+				}
+			}
 			if !bytes.Equal(long[:fsize], fw) {
 				r.violation("frame-depends-on-buffer-length", op2, fmt.Sprintf("packed into a buffer of %d bytes the frame is %s, into one of exactly %d bytes it is %s", len(long), ktext.Hex(long[:fsize]), fsize, ktext.Hex(fw)))
 			}
